@@ -302,9 +302,9 @@ package service
 //@   goroutine
 //@   must-recover
 //@   requires clientConn != nil && handle != nil
-//@   trace[C11,handled-once] exactly 1 service.StreamServe.handle
-//@   trace[C11,handles-its-own-connection] each service.StreamServe.handle satisfies $arg1 == clientConn
-//@   trace[C18,connection-closed-after-handling] before service.StreamServe.handle transport.StreamConn.Close
+//@   trace[C11,handled-once] exactly 1 service.StreamServe$1.handle
+//@   trace[C11,handles-its-own-connection] each service.StreamServe$1.handle satisfies $arg1 == clientConn
+//@   trace[C18,connection-closed-after-handling] before service.StreamServe$1.handle transport.StreamConn.Close
 //@   trace[C18,connection-closed-once] exactly 1 transport.StreamConn.Close
 //@   trace[C11,done-after-close] before transport.StreamConn.Close wg.Done
 //@   trace[C18,done-once] exactly 1 wg.Done
